@@ -55,23 +55,25 @@ Section UC20.
 Variables fx g : bool.
 Hypothesis guard : fx || g = true.
 
-(* crash-safe part: holds after every single write *)
+Definition live (x : status) : bool := match x with STry | STrying => true | _ => false end.
+
+(* crash-safe part: holds after every single write. try-kernel.efi / try_base only matter while the status is try or
+   trying: a left-over link with status "" is never booted nor committed. *)
 Definition Ist (gk gb ak ab : list rev) (s : st20) : Prop :=
   In (kl s) gk /\ In (m_base (me s)) gb /\
-  (forall t, tkl s = Some t -> In t gk \/ In t ak) /\
-  (forall t, m_try (me s) = Some t -> In t gb \/ In t ab).
+  (live (ks s) = true -> forall t, tkl s = Some t -> In t gk \/ In t ak) /\
+  (live (m_bst (me s)) = true -> forall t, m_try (me s) = Some t -> In t gb \/ In t ab).
 
 (* kernel.efi is trusted by the initramfs *)
 Definition Trust (s : st20) : Prop := In (kl s) (m_ck (me s)).
 
 (* what snapd may rely on when no operation is in progress, kernel k and base b being mounted *)
-Definition Qb (gk gb ak ab : list rev) (k b : rev) (s : st20) : Prop :=
-  (In k gk \/ In k ak) /\ (In b gb \/ In b ab) /\
+Definition Qb (k b : rev) (s : st20) : Prop :=
   (ks s = STrying -> forall t, tkl s = Some t -> t = k /\ In t (m_ck (me s))) /\
   (m_bst (me s) = STrying -> forall t, m_try (me s) = Some t -> t = b).
 
 Definition Qf (gk gb ak ab : list rev) (k b : rev) (s : st20) : Prop :=
-  Ist gk gb ak ab s /\ Trust s /\ Qb gk gb ak ab k b s.
+  Ist gk gb ak ab s /\ Trust s /\ Qb k b s.
 
 Definition head_enable (ws : list write20) : Prop := exists r ws', ws = WEnable r :: ws'.
 
@@ -86,16 +88,22 @@ Fixpoint pend_ok (Pp : st20 -> list write20 -> Prop) (Pf : st20 -> Prop) (s : st
   end.
 
 Definition is_nt (c : option op20) : bool := match c with Some (SetK _ true) => true | _ => false end.
-Definition is_mark (c : option op20) : bool := match c with Some Mark => true | _ => false end.
+Definition cfin_ak (c : option op20) (s : st20) (a : list rev) := match c with Some o => fin_ak o s a | None => a end.
+Definition cfin_ab (c : option op20) (s : st20) (a : list rev) := match c with Some o => fin_ab o s a | None => a end.
+
+(* the image grub chainloaded is the one the initramfs is going to select *)
+Definition fwc (i : rev) (s : st20) : Prop :=
+  (ks s = SDef \/ ks s = STrying) /\ (ks s = STrying -> tkl s = Some i) /\ (ks s = SDef -> i = kl s).
 
 Definition MI (m : mach) : Prop :=
   match ph m with
-  | PhOff | PhFw _ => pend m = [] /\ Ist (gk m) (gb m) (ak m) (ab m) (st m) /\ Trust (st m)
+  | PhOff => pend m = [] /\ Ist (gk m) (gb m) (ak m) (ab m) (st m) /\ Trust (st m)
+  | PhFw i => pend m = [] /\ Ist (gk m) (gb m) (ak m) (ab m) (st m) /\ Trust (st m) /\ fwc i (st m)
   | PhRun k b =>
       pend_ok (P (gk m) (gb m) (ak m) (ab m) (is_nt (cur m)))
-              (Qf (gk m) (gb m) (if is_mark (cur m) then [] else ak m) (if is_mark (cur m) then [] else ab m) k b)
+              (fun s' => Qf (gk m) (gb m) (cfin_ak (cur m) s' (ak m)) (cfin_ab (cur m) s' (ab m)) k b s')
               (st m) (pend m) /\
-      (pend m = [] -> is_mark (cur m) = false)
+      (pend m = [] -> cur m = None)
   | PhDead => False
   end.
 
@@ -103,8 +111,8 @@ Lemma Ist_mono : forall gk gb ak ab gk' gb' ak' ab' s,
   incl gk gk' -> incl gb gb' -> incl ak ak' -> incl ab ab' -> Ist gk gb ak ab s -> Ist gk' gb' ak' ab' s.
 Proof.
   unfold Ist, incl; intros * Hk Hb Hak Hab (H1 & H2 & H3 & H4); repeat split; auto.
-  - intros t Ht; destruct (H3 t Ht); auto.
-  - intros t Ht; destruct (H4 t Ht); auto.
+  - intros Hl t Ht; destruct (H3 Hl t Ht); auto.
+  - intros Hl t Ht; destruct (H4 Hl t Ht); auto.
 Qed.
 
 Lemma st_eta : forall s, {| ks := ks s; kl := kl s; tkl := tkl s; me := me s |} = s.
@@ -132,6 +140,12 @@ Ltac sat :=
   | H : STry = STrying -> _ |- _ => clear H
   | H : SBad = STrying -> _ |- _ => clear H
   | H : _ /\ _ |- _ => destruct H
+  | H : false = true |- _ => discriminate H
+  | H : false = true -> _ |- _ => clear H
+  | H : context [live _] |- _ => progress cbn [live] in H
+  | H : ?c = true -> forall t, Some ?x = Some t -> _, Hl : ?c = true |- _ => pose proof (H Hl x eq_refl); clear H
+  | H : ?c = true -> forall t, None = Some t -> _ |- _ => clear H
+  | H : ?c = true -> forall t, ?x = Some t -> _, Hl : ?c = true, Ht : ?x = Some ?u |- _ => pose proof (H Hl u Ht); clear H
   end.
 
 Ltac fin :=
@@ -156,14 +170,14 @@ Ltac op_start HI HT HQ :=
   match goal with s : st20 |- _ => destruct s as [ks0 kl0 tkl0 [mb mt mbs mck]] end;
   unfold Ist, Trust, Qb in *; simpl in *;
   let I1 := fresh "I1" in let I2 := fresh "I2" in let I3 := fresh "I3" in let I4 := fresh "I4" in
-  let Q1 := fresh "Q1" in let Q2 := fresh "Q2" in let Q3 := fresh "Q3" in let Q4 := fresh "Q4" in
-  destruct HI as (I1 & I2 & I3 & I4); destruct HQ as (Q1 & Q2 & Q3 & Q4).
+  let Q3 := fresh "Q3" in let Q4 := fresh "Q4" in
+  destruct HI as (I1 & I2 & I3 & I4); destruct HQ as (Q3 & Q4).
 
 (* ---- the operations, started in a quiescent state, keep the crash-safe invariant after every write and end quiescent *)
 
 Lemma op_mark : forall gk gb ak ab k b s,
   Qf gk gb ak ab k b s ->
-  pend_ok (P (k :: gk) (b :: gb) ak ab false) (Qf (k :: gk) (b :: gb) [] [] k b) s (mark20 s).
+  pend_ok (P (k :: gk) (b :: gb) ak ab false) (fun s' => Qf (k :: gk) (b :: gb) [] [] k b s') s (mark20 s).
 Proof.
   intros * (HI & HT & HQ). op_start HI HT HQ.
   unfold mark20, mark_kernel_sn, mark_base_sn, modeenv_write; simpl.
@@ -180,7 +194,8 @@ Qed.
 
 Lemma op_setk_try : forall gk gb ak ab k b s r,
   Qf gk gb ak ab k b s ->
-  pend_ok (P gk gb (r :: ak) ab false) (Qf gk gb (r :: ak) ab k b) s (set_next_kernel fx s r false).
+  pend_ok (P gk gb (if N.eqb r (kl s) then ak else r :: ak) ab false)
+          (fun s' => Qf gk gb (if N.eqb r (kl s') then [] else [r]) ab k b s') s (set_next_kernel fx s r false).
 Proof.
   intros * (HI & HT & HQ). op_start HI HT HQ.
   unfold set_next_kernel, modeenv_write, set_ck; simpl.
@@ -189,7 +204,7 @@ Qed.
 
 Lemma op_setk_notry : forall gk gb ak ab k b s r,
   Qf gk gb ak ab k b s -> In r gk ->
-  pend_ok (P gk gb ak ab true) (Qf gk gb ak ab k b) s (set_next_kernel fx s r true).
+  pend_ok (P gk gb ak ab true) (fun s' => Qf gk gb [] ab k b s') s (set_next_kernel fx s r true).
 Proof.
   intros * (HI & HT & HQ) Hr. op_start HI HT HQ.
   unfold set_next_kernel, modeenv_write, set_ck; simpl.
@@ -199,7 +214,8 @@ Qed.
 
 Lemma op_setb_try : forall gk gb ak ab k b s r,
   Qf gk gb ak ab k b s ->
-  pend_ok (P gk gb ak (r :: ab) false) (Qf gk gb ak (r :: ab) k b) s (set_next_base s r false).
+  pend_ok (P gk gb ak (if N.eqb r (m_base (me s)) then ab else r :: ab) false)
+          (fun s' => Qf gk gb ak (if N.eqb r (m_base (me s')) then [] else [r]) k b s') s (set_next_base s r false).
 Proof.
   intros * (HI & HT & HQ). op_start HI HT HQ.
   unfold set_next_base, modeenv_write, set_bst; simpl.
@@ -208,67 +224,113 @@ Qed.
 
 Lemma op_setb_notry : forall gk gb ak ab k b s r,
   Qf gk gb ak ab k b s -> In r gb ->
-  pend_ok (P gk gb ak ab false) (Qf gk gb ak ab k b) s (set_next_base s r true).
+  pend_ok (P gk gb ak ab false) (fun s' => Qf gk gb ak [] k b s') s (set_next_base s r true).
 Proof.
   intros * (HI & HT & HQ) Hr. op_start HI HT HQ.
   unfold set_next_base, modeenv_write, set_bst; simpl.
   break; finish.
 Qed.
 
-Lemma mark20_nonempty : forall s, mark20 s <> [].
+(* all operations at once, in the shape start_op uses *)
+Lemma op_all : forall gk gb ak ab k b s o,
+  Qf gk gb ak ab k b s ->
+  match o with SetK r true => In r gk | SetB r true => In r gb | _ => True end ->
+  let gk' := match o with Mark => k :: gk | _ => gk end in
+  let gb' := match o with Mark => b :: gb | _ => gb end in
+  let ak1 := match o with SetK r false => if N.eqb r (kl s) then ak else r :: ak | _ => ak end in
+  let ab1 := match o with SetB r false => if N.eqb r (m_base (me s)) then ab else r :: ab | _ => ab end in
+  pend_ok (P gk' gb' ak1 ab1 (is_nt (Some o)))
+          (fun s' => Qf gk' gb' (fin_ak o s' ak1) (fin_ab o s' ab1) k b s') s (writes20 fx o s).
 Proof.
-  intros s; unfold mark20.
-  destruct (status_eqb (ks s) SDef); destruct (N.eqb (kl s) (mark_kernel_sn s)); simpl; discriminate.
+  intros * HQ Hen. destruct o as [r [|] | r [|] |]; simpl.
+  - apply op_setk_notry; auto.
+  - apply op_setk_try; auto.
+  - apply op_setb_notry; auto.
+  - apply op_setb_try; auto.
+  - apply op_mark; auto.
 Qed.
 
-Lemma Ist_ks : forall gk gb ak ab s x,
-  Ist gk gb ak ab s -> Ist gk gb ak ab {| ks := x; kl := kl s; tkl := tkl s; me := me s |}.
-Proof. unfold Ist; simpl; auto. Qed.
-
-(* the firmware never gets stuck and only rewrites kernel_status *)
+(* the firmware never gets stuck, only rewrites kernel_status, and chainloads what the status it leaves says *)
 Lemma firmware_ok : forall s s' r, firmware20 s = (s', r) ->
-  kl s' = kl s /\ tkl s' = tkl s /\ me s' = me s /\ r <> FwStuck /\
-  (forall i, r = FwImage i -> i = kl s \/ (tkl s = Some i /\ ks s' = STrying)).
+  kl s' = kl s /\ tkl s' = tkl s /\ me s' = me s /\ r <> FwStuck /\ (live (ks s') = true -> live (ks s) = true) /\
+  (forall i, r = FwImage i -> fwc i s').
 Proof.
   intros s s' r; unfold firmware20; rewrite grub_table.
   destruct (ks s); simpl; try destruct (tkl s) eqn:Et; simpl; intros H; inversion H; subst; simpl;
-    repeat split; auto; try discriminate; try (intros i Hi; inversion Hi; subst; auto).
+    repeat split; auto; try discriminate; unfold fwc; simpl;
+    try (intros; match goal with Hi : FwImage _ = FwImage _ |- _ => inversion Hi; subst end; auto; try discriminate; congruence).
 Qed.
 
 Lemma initramfs_base_ok : forall m m' b, initramfs_base m = (m', b) ->
-  m_base m' = m_base m /\ m_try m' = m_try m /\ m_ck m' = m_ck m /\
-  (b = m_base m \/ m_try m = Some b) /\
+  m_base m' = m_base m /\ m_try m' = m_try m /\ m_ck m' = m_ck m /\ (live (m_bst m') = true -> live (m_bst m) = true) /\
+  (b = m_base m \/ (m_try m = Some b /\ m_bst m = STry)) /\
   (m_bst m' = STrying -> forall t, m_try m' = Some t -> t = b).
 Proof.
   intros m m' b; unfold initramfs_base.
   destruct (m_bst m) eqn:Eb; try destruct (m_try m) eqn:Et; simpl; intros H; inversion H; subst; simpl;
-    repeat split; auto; try congruence; intros; congruence.
+    repeat split; simpl; rewrite ?Eb; simpl; auto; try (intros; congruence).
+Qed.
+
+(* what the initramfs mounts: the image grub chainloaded, and a known-good revision or the one under trial *)
+Lemma mount_ok : forall m i k b, MI m -> ph m = PhFw i -> ph (step20 fx g m EInitramfs) = PhRun k b ->
+  k = i /\ (In k (gk m) \/ In k (ak m)) /\ (In b (gb m) \/ In b (ab m)) /\ MI (step20 fx g m EInitramfs).
+Proof.
+  intros m i k b HM Hp. unfold MI in HM. rewrite Hp in HM. destruct HM as (_ & HI & HT & (Hks & Hc1 & Hc2)).
+  unfold step20. rewrite Hp. unfold initramfs20.
+  destruct (initramfs_base (me (st m))) as [m' b'] eqn:Eb.
+  destruct (initramfs_base_ok _ _ _ Eb) as (B1 & B2 & B3 & B4 & B5 & B6).
+  assert (HI' : Ist (gk m) (gb m) (ak m) (ab m) {| ks := ks (st m); kl := kl (st m); tkl := tkl (st m); me := m' |} /\
+                Trust {| ks := ks (st m); kl := kl (st m); tkl := tkl (st m); me := m' |}).
+  { unfold Ist, Trust in *; simpl. rewrite B1, B2, B3. intuition. }
+  destruct HI' as [HI' HT'].
+  assert (Hb : In b' (gb m) \/ In b' (ab m)).
+  { destruct HI as (_ & I2 & _ & I4). destruct B5 as [-> | [B5 B5']]; auto. apply I4; auto. rewrite B5'. reflexivity. }
+  unfold initramfs_kernel; simpl. rewrite B3.
+  destruct Hks as [Eks | Eks]; rewrite Eks; rewrite Eks in HI', HT'; simpl.
+  - (* kernel_status "" : kernel.efi *)
+    destruct (mem (kl (st m)) (m_ck (me (st m)))) eqn:Em; simpl.
+    + intros H; inversion H; subst k b. split; [symmetry; exact (Hc2 Eks) |].
+      split; [left; destruct HI as (I1 & _); exact I1 |].
+      split; [exact Hb |]. unfold MI; simpl. split; [| reflexivity]. split; [exact HI' | split; [exact HT' |]].
+      unfold Qb; simpl. split; [intros; discriminate | exact B6].
+    + discriminate.
+  - (* trying: try-kernel.efi *)
+    rewrite (Hc1 Eks). rewrite (Hc1 Eks) in HI', HT'. destruct (mem i (m_ck (me (st m)))) eqn:Em; simpl; [| discriminate].
+    apply mem_In in Em.
+    intros H; inversion H; subst k b. split; [reflexivity |].
+    split; [destruct HI as (_ & _ & I3 & _); apply I3; [rewrite Eks; reflexivity | exact (Hc1 Eks)] |].
+    split; [exact Hb |]. unfold MI; simpl. split; [| reflexivity]. split; [exact HI' | split; [exact HT' |]].
+    unfold Qb; simpl. split; [| exact B6].
+    intros _ t Ht; inversion Ht; subst. rewrite B3. auto.
 Qed.
 
 Theorem MI_step : forall m e, MI m -> MI (step20 fx g m e).
 Proof.
   intros m e HM0. assert (HM := HM0). unfold MI in HM.
-  destruct e; unfold step20.
+  destruct e.
   - (* EOp *)
+    unfold step20.
     destruct (ph m) as [| i | k b |] eqn:Eph; try (unfold MI; rewrite Eph; exact HM).
     destruct (pend m) eqn:Ep; [| unfold MI; rewrite Eph, Ep; exact HM].
     destruct (op_enabled m o) eqn:Een; [| unfold MI; rewrite Eph, Ep; exact HM].
-    destruct HM as [HQ Hm]. simpl in HQ. rewrite (Hm eq_refl) in HQ.
-    unfold MI, start_op; simpl. rewrite ?Eph.
-    destruct o as [r [|] | r [|] |]; simpl in *.
-    + apply mem_In in Een. split; [apply op_setk_notry; auto | intros _; reflexivity].
-    + split; [apply op_setk_try; auto | intros _; reflexivity].
-    + apply mem_In in Een. split; [apply op_setb_notry; auto | intros _; reflexivity].
-    + split; [apply op_setb_try; auto | intros _; reflexivity].
-    + split; [apply op_mark; auto | intros H; exfalso; exact (mark20_nonempty _ H)].
+    destruct HM as [HQ Hm]. simpl in HQ. rewrite (Hm eq_refl) in HQ. simpl in HQ.
+    assert (Hen : match o with SetK r true => In r (gk m) | SetB r true => In r (gb m) | _ => True end).
+    { destruct o as [r [|] | r [|] |]; simpl in *; auto; apply mem_In; auto. }
+    pose proof (op_all _ _ _ _ _ _ _ o HQ Hen) as L. simpl in L.
+    unfold MI, start_op; simpl. rewrite Eph.
+    destruct (writes20 fx o (st m)) as [| w ws] eqn:Ew.
+    + simpl in *. split; [exact L | reflexivity].
+    + split; [exact L | discriminate].
   - (* EWrite *)
+    unfold step20.
     destruct (ph m) as [| i | k b |] eqn:Eph; try (unfold MI; rewrite Eph; exact HM).
     destruct (pend m) as [| w ws] eqn:Ep; [unfold MI; rewrite Eph, Ep; exact HM |].
     destruct HM as [[HP Hrest] _]. unfold MI; simpl. rewrite ?Eph.
     destruct ws as [| w2 ws2]; simpl in *.
-    + split; [| reflexivity]. destruct (cur m) as [[| |]|]; simpl in *; exact Hrest.
-    + split; [| discriminate]. destruct (cur m) as [[| |]|]; simpl in *; exact Hrest.
+    + split; [| reflexivity]. destruct (cur m); simpl in *; exact Hrest.
+    + split; [| discriminate]. destruct (cur m); simpl in *; exact Hrest.
   - (* EReset *)
+    unfold step20.
     destruct (g && in_window m) eqn:Ew; [destruct (ph m); exact HM0 |].
     assert (Hs : Ist (gk m) (gb m) (ak m) (ab m) (st m) /\ Trust (st m)).
     { destruct (ph m) as [| i | k b |] eqn:Eph; try tauto.
@@ -279,42 +341,37 @@ Proof.
         inversion Hh; subst. unfold in_window in Ew. rewrite Ec, Ep, Hg in Ew. simpl in Ew. discriminate. }
     destruct (ph m); unfold MI; simpl; tauto.
   - (* EFirmware *)
+    unfold step20.
     destruct (ph m) as [| i | k b |] eqn:Eph; try (unfold MI; rewrite Eph; exact HM).
     destruct HM as (_ & HI & HT).
     destruct (firmware20 (st m)) as [s' r] eqn:Ef.
-    destruct (firmware_ok _ _ _ Ef) as (E1 & E2 & E3 & Hns & _).
+    destruct (firmware_ok _ _ _ Ef) as (E1 & E2 & E3 & Hns & E4 & Hfw).
     assert (Ist (gk m) (gb m) (ak m) (ab m) s' /\ Trust s').
-    { unfold Ist, Trust in *. rewrite E1, E2, E3. tauto. }
-    destruct r; unfold MI; simpl; try tauto; congruence.
+    { unfold Ist, Trust in *. rewrite E1, E2, E3. intuition. }
+    destruct r; unfold MI; simpl; try tauto; try congruence.
+    pose proof (Hfw _ eq_refl). tauto.
   - (* EInitramfs *)
-    destruct (ph m) as [| i | k b |] eqn:Eph; try (unfold MI; rewrite Eph; exact HM).
-    destruct HM as (_ & HI & HT).
-    unfold initramfs20. destruct (initramfs_base (me (st m))) as [m' b] eqn:Eb.
-    destruct (initramfs_base_ok _ _ _ Eb) as (B1 & B2 & B3 & B4 & B5).
-    set (s' := {| ks := ks (st m); kl := kl (st m); tkl := tkl (st m); me := m' |}).
-    assert (HI' : Ist (gk m) (gb m) (ak m) (ab m) s' /\ Trust s').
-    { unfold Ist, Trust in *; simpl. rewrite B1, B2, B3. tauto. }
-    destruct HI' as [HI' HT'].
-    unfold initramfs_kernel; simpl. rewrite B3.
-    assert (Hb : In b (gb m) \/ In b (ab m)).
-    { destruct HI as (_ & I2 & _ & I4). destruct B4 as [-> | B4]; auto. }
-    destruct (ks (st m)) eqn:Eks; simpl.
-    + (* SDef *)
-      destruct (mem (kl (st m)) (m_ck (me (st m)))) eqn:Em.
-      * unfold MI; simpl. split; [| reflexivity]. split; [exact HI' | split; [exact HT' |]].
-        unfold Qb; simpl. repeat split; auto; try (intros; discriminate).
-        left. destruct HI as (I1 & _). exact I1.
-      * exfalso. unfold Trust in HT. apply mem_In in HT. congruence.
-    + unfold MI; simpl; tauto.
-    + (* STrying *)
-      destruct (tkl (st m)) as [t|] eqn:Et; [| unfold MI; simpl; tauto].
-      destruct (mem t (m_ck (me (st m)))) eqn:Em; [| unfold MI; simpl; tauto].
-      apply mem_In in Em.
-      unfold MI; simpl. split; [| reflexivity]. split; [exact HI' | split; [exact HT' |]].
-      unfold Qb; simpl. repeat split; auto;
-        try (match goal with Hs : Some _ = Some _ |- _ => inversion Hs; subst end; rewrite ?B3; auto; fail).
-      destruct HI as (_ & _ & I3 & _). exact (I3 t Et).
-    + unfold MI; simpl; tauto.
+    destruct (ph m) as [| i | k b |] eqn:Eph; try (unfold step20; rewrite Eph; exact HM0).
+    destruct (ph (step20 fx g m EInitramfs)) as [| i' | k b |] eqn:Er.
+    + (* reboot requested *)
+      revert Er. unfold step20. rewrite Eph. unfold initramfs20.
+      destruct (initramfs_base (me (st m))) as [m' b'] eqn:Eb.
+      destruct (initramfs_base_ok _ _ _ Eb) as (B1 & B2 & B3 & B4 & _).
+      destruct HM as (_ & HI & HT & _).
+      destruct (initramfs_kernel _); simpl; intros Er; try discriminate.
+      unfold MI; simpl. unfold Ist, Trust in *; simpl. rewrite B1, B2, B3. intuition.
+    + exfalso. revert Er. unfold step20. rewrite Eph. unfold initramfs20.
+      destruct (initramfs_base (me (st m))) as [m' b']. destruct (initramfs_kernel _); simpl; discriminate.
+    + destruct (mount_ok m i k b HM0 Eph Er) as (_ & _ & _ & H). exact H.
+    + (* dead end: impossible *)
+      exfalso. revert Er. unfold step20. rewrite Eph. unfold initramfs20.
+      destruct (initramfs_base (me (st m))) as [m' b'] eqn:Eb.
+      destruct (initramfs_base_ok _ _ _ Eb) as (_ & _ & B3 & _).
+      destruct HM as (_ & HI & HT & (Hks & Hc1 & _)).
+      unfold initramfs_kernel; simpl. rewrite B3.
+      destruct Hks as [Eks | Eks]; rewrite Eks; simpl.
+      * unfold Trust in HT. apply mem_In in HT. rewrite HT. simpl. discriminate.
+      * rewrite (Hc1 Eks). destruct (mem i (m_ck (me (st m)))); simpl; discriminate.
 Qed.
 
 Lemma MI_init : forall k b, MI (init20 k b).
@@ -331,25 +388,21 @@ End UC20.
 
 (* ------------------------------------------------------------------------------------------------ UC20 consequences *)
 
-Lemma pend_ok_final : forall Pp Pf ws s, pend_ok Pp Pf s ws -> exists s', Pf s'.
-Proof. induction ws as [| w r IH]; simpl; intros s H; [eauto | destruct H as [_ H]; eauto]. Qed.
-
 Definition reach20 (fx g : bool) (k0 b0 : rev) (m : mach) : Prop := exists evs, m = run20 fx g (init20 k0 b0) evs.
 
 Lemma reach_MI : forall fx g k0 b0 m, fx || g = true -> reach20 fx g k0 b0 m -> MI g m.
 Proof. intros * Hg [evs ->]. apply MI_run; auto. apply MI_init. Qed.
 
-(* whatever the initramfs mounted is known-good or was requested for trial since the last completed mark *)
-Lemma boots_good_or_try : forall fx g k0 b0 m k b, fx || g = true -> reach20 fx g k0 b0 m -> ph m = PhRun k b ->
-  (In k (gk m) \/ In k (ak m)) /\ (In b (gb m) \/ In b (ab m)).
+(* whatever the initramfs mounts, at the moment it mounts it, is the image grub chainloaded and is known-good or THE
+   revision under trial *)
+Lemma mounts_good_or_try : forall fx g k0 b0 m i k b, fx || g = true -> reach20 fx g k0 b0 m ->
+  ph m = PhFw i -> ph (step20 fx g m EInitramfs) = PhRun k b ->
+  k = i /\ (In k (gk m) \/ In k (ak m)) /\ (In b (gb m) \/ In b (ab m)).
 Proof.
-  intros * Hg Hr Hp. pose proof (reach_MI _ _ _ _ _ Hg Hr) as HM. unfold MI in HM. rewrite Hp in HM.
-  destruct HM as [HQ _]. apply pend_ok_final in HQ. destruct HQ as [s' (_ & _ & Q1 & Q2 & _)].
-  destruct (is_mark (cur m)); simpl in *; tauto.
+  intros * Hg Hr Hp Hs. pose proof (reach_MI _ _ _ _ _ Hg Hr) as HM.
+  destruct (mount_ok _ _ _ _ _ _ HM Hp Hs) as (? & ? & ? & _). auto.
 Qed.
 
-(* kernel.efi and the modeenv base (the fall-back pointers) only ever name known-good revisions, in every reachable
-   state including the states between two writes of an operation *)
 Lemma fallback_known_good : forall fx g k0 b0 m, fx || g = true -> reach20 fx g k0 b0 m ->
   In (kl (st m)) (gk m) /\ In (m_base (me (st m))) (gb m).
 Proof.
@@ -410,6 +463,21 @@ Proof.
   unfold initramfs_kernel; simpl. rewrite B3, HT. simpl. eauto.
 Qed.
 
+(* bounded fallback: from every reachable state a reset is followed by a mount within TWO firmware rounds (a try
+   kernel that is missing or not trusted costs one extra round; there is no try loop) *)
+Lemma boot_terminates : forall fx g k0 b0 m, fx || g = true -> reach20 fx g k0 b0 m -> g && in_window m = false ->
+  exists k b, ph (run20 fx g m [EReset; EFirmware; EInitramfs; EFirmware; EInitramfs]) = PhRun k b.
+Proof.
+  intros * Hg Hr Hw.
+  pose proof (reach_Trust _ _ _ _ _ Hg Hr Hw) as HT. apply mem_In in HT.
+  assert (E1 : step20 fx g m EReset = with_st m (st m) PhOff).
+  { unfold step20. rewrite Hw. destruct (ph m); reflexivity. }
+  unfold run20. cbn [fold_left]. rewrite E1. unfold with_st.
+  destruct (st m) as [ks0 kl0 tkl0 [mb mt mbs mck]]. simpl in HT.
+  destruct ks0, tkl0 as [t|]; destruct mbs, mt as [tb|]; simpl; rewrite ?HT; simpl;
+    try (destruct (mem t mck) eqn:Et; simpl); rewrite ?HT; simpl; eauto.
+Qed.
+
 (* same for the base: base_status still trying when the initramfs runs means the trial failed; the base is mounted *)
 Lemma failed_base_trial_returns : forall fx g k0 b0 m, fx || g = true -> reach20 fx g k0 b0 m ->
   m_bst (me (st m)) = STrying ->
@@ -442,7 +510,6 @@ Definition I16 (m : mach16) : Prop :=
   match ph16 m with
   | P16Off => True
   | P16Run k c =>
-      (In k (gk16 m) \/ In k (ak16 m)) /\ (In c (gc16 m) \/ In c (ac16 m)) /\
       (mode s = STrying -> (forall t, stk s = Some t -> t = k) /\ (forall t, stc s = Some t -> t = c))
   end.
 
@@ -459,6 +526,10 @@ Ltac sat16 :=
   | H : forall t, ?x = Some t -> _, H' : ?x = Some ?u |- _ => pose proof (H u H'); clear H
   end.
 
+Ltac fin16 :=
+  sat16; repeat split; auto using in_eq, in_cons; intros; try discriminate; sat16;
+  try solve [intuition (subst; auto using in_eq, in_cons; congruence)].
+
 Theorem I16_step : forall m e, I16 m -> I16 (step16 m e).
 Proof.
   intros [[md k0 tk0 c0 tc0] p gk0 gc0 ak0 ac0] e (H1 & H2 & H3 & H4 & H5); simpl in *.
@@ -466,24 +537,15 @@ Proof.
   - destruct p as [| k c]; [unfold I16; simpl; auto |].
     destruct o as [[|] r [|] |]; simpl.
     + destruct (mem r gk0) eqn:Em; [| unfold I16; simpl; auto].
-      unfold I16, set_next16; simpl. destruct (N.eqb k0 r) eqn:E; simpl; [destruct md; simpl |];
-        sat16; repeat split; auto; intros; try discriminate; sat16; intuition (subst; auto; congruence).
-    + unfold I16, set_next16; simpl. destruct (N.eqb k0 r) eqn:E; simpl; [destruct md; simpl |];
-        sat16; repeat split; auto using in_eq, in_cons; intros; try discriminate; sat16;
-        intuition (subst; auto using in_eq, in_cons; congruence).
+      unfold I16, set_next16, trial16; simpl. destruct (N.eqb k0 r) eqn:E; simpl; [destruct md; simpl |]; fin16.
+    + unfold I16, set_next16, trial16; simpl. destruct (N.eqb k0 r) eqn:E; simpl; [destruct md; simpl |]; fin16.
     + destruct (mem r gc0) eqn:Em; [| unfold I16; simpl; auto].
-      unfold I16, set_next16; simpl. destruct (N.eqb c0 r) eqn:E; simpl; [destruct md; simpl |];
-        sat16; repeat split; auto; intros; try discriminate; sat16; intuition (subst; auto; congruence).
-    + unfold I16, set_next16; simpl. destruct (N.eqb c0 r) eqn:E; simpl; [destruct md; simpl |];
-        sat16; repeat split; auto using in_eq, in_cons; intros; try discriminate; sat16;
-        intuition (subst; auto using in_eq, in_cons; congruence).
-    + unfold I16, mark16; simpl. destruct md; simpl; destruct tk0, tc0; simpl;
-        sat16; repeat split; auto using in_eq, in_cons; intros; try discriminate; sat16;
-        intuition (subst; auto using in_eq, in_cons; congruence).
+      unfold I16, set_next16, trial16; simpl. destruct (N.eqb c0 r) eqn:E; simpl; [destruct md; simpl |]; fin16.
+    + unfold I16, set_next16, trial16; simpl. destruct (N.eqb c0 r) eqn:E; simpl; [destruct md; simpl |]; fin16.
+    + unfold I16, mark16; simpl. destruct md; simpl; destruct tk0, tc0; simpl; fin16.
   - unfold I16; simpl; auto.
   - destruct p as [| k c]; [| unfold I16; simpl; auto].
-    unfold I16, firmware16; simpl. destruct md; simpl; destruct tk0, tc0; simpl;
-      sat16; repeat split; auto; intros; try discriminate; sat16; intuition (subst; auto; congruence).
+    unfold I16, firmware16; simpl. destruct md; simpl; destruct tk0, tc0; simpl; fin16.
 Qed.
 
 Lemma I16_init : forall k c, I16 (init16 k c).
@@ -492,14 +554,18 @@ Proof. intros; unfold I16, init16; simpl; repeat split; auto; intros; discrimina
 Theorem I16_run : forall evs m, I16 m -> I16 (run16 m evs).
 Proof. unfold run16; induction evs as [| e r IH]; simpl; intros; auto. apply IH, I16_step; auto. Qed.
 
+(* what the boot script boots, at the moment it boots it, is known-good or THE revision under trial *)
 Lemma boots16_good_or_try : forall k0 c0 evs k c,
-  ph16 (run16 (init16 k0 c0) evs) = P16Run k c ->
   let m := run16 (init16 k0 c0) evs in
+  ph16 m = P16Off -> ph16 (step16 m E16Firmware) = P16Run k c ->
   (In k (gk16 m) \/ In k (ak16 m)) /\ (In c (gc16 m) \/ In c (ac16 m)) /\
   In (sk (s16 m)) (gk16 m) /\ In (sc (s16 m)) (gc16 m).
 Proof.
-  intros * Hp m. pose proof (I16_run evs _ (I16_init k0 c0)) as H. fold m in H. unfold I16 in H.
-  fold m in Hp. rewrite Hp in H. tauto.
+  intros * Hp. pose proof (I16_run evs _ (I16_init k0 c0)) as H. fold m in H. unfold I16 in H.
+  destruct H as (H1 & H2 & H3 & H4 & _).
+  unfold step16. rewrite Hp. unfold firmware16.
+  destruct (mode (s16 m)); simpl; intros E; inversion E; subst; repeat split; auto;
+    try (destruct (stk (s16 m)) eqn:Ek; auto); try (destruct (stc (s16 m)) eqn:Ec; auto).
 Qed.
 
 Lemma fallback16_known_good : forall k0 c0 evs,
